@@ -370,6 +370,72 @@ impl Stream for WordLimits
 	}
 }
 
+/// lengths named by constants of 2^32 and more (types only: nothing that big
+/// is allocated). The compiler may refuse them, but if it accepts the program
+/// the length is the constant, not the constant cut to 32 bits.
+struct HugeLengths;
+const HUGE: &[u64] = &[4294967296, 4294967299, 8589934593, 1099511627776, 4294967295, 2147483648];
+impl Stream for HugeLengths
+{
+	fn name(&self) -> String
+	{
+		"huge-named-lengths".into()
+	}
+	fn count(&self, _tier: Tier) -> u64
+	{
+		HUGE.len() as u64 * 3
+	}
+	fn exhaustive(&self) -> bool
+	{
+		true
+	}
+	fn run(&self, idx: u64, _c: &mut Choices, ctx: &RunCtx) -> CaseOut
+	{
+		let mut out = CaseOut::default();
+		let n = HUGE[(idx / 3) as usize];
+		let (t, size) = [("u8", 1u128), ("i32", 4), ("u64", 8)][(idx % 3) as usize];
+		let src = format!(
+			"const N: usize = {n};\n\nfn len_of(x: &[N]{t}) -> usize\n{{\n\treturn: |x|\n}}\n\nfn main() -> i32\n{{\n\tprint!(N, \" \", |:[N]{t}|, \"\\n\");\n\treturn: 0\n}}\n"
+		);
+		out.key = idx;
+		out.nontrivial = true;
+		out.count("programs", 1);
+		let o = crate::alpha::compile_one(
+			&src,
+			crate::alpha::Options {
+				want_ir: true,
+				..Default::default()
+			},
+		);
+		if o.internal_error.is_some() || !o.ok
+		{
+			// refusing such a length (with or without a diagnostic) is not
+			// this property's subject
+			out.class("huge-length:refused");
+		}
+		else
+		{
+			out.class("huge-length:accepted");
+			let r = crate::alpha::run_ir(&o.module_irs[0], 10);
+			out.count("comparisons", 1);
+			let got = String::from_utf8_lossy(&r.stdout).trim().to_string();
+			let want = format!("{} {}", n, n as u128 * size);
+			if !r.timed_out && got != want
+			{
+				out.fail(
+					"an array type whose length is a named constant of 2^31 or more has another length",
+					json!({"source": src, "stdout": got, "expected_stdout": want}),
+				);
+			}
+		}
+		if ctx.want_sample
+		{
+			out.sample = Some(json!({"source": src}));
+		}
+		out
+	}
+}
+
 /// named-constant lengths and |x| through every way of passing an array
 struct ArrayLengths;
 impl Stream for ArrayLengths
@@ -517,6 +583,6 @@ impl Check for C10
 	}
 	fn streams(&self) -> Vec<Box<dyn Stream>>
 	{
-		vec![Box::new(ConstExprs), Box::new(ArrayLengths), Box::new(Layouts), Box::new(WordLimits)]
+		vec![Box::new(ConstExprs), Box::new(ArrayLengths), Box::new(Layouts), Box::new(WordLimits), Box::new(HugeLengths)]
 	}
 }
